@@ -138,7 +138,8 @@ func (p *PaymentService) AddNode(ctx context.Context, sig string, wallet string,
 		return err
 	}
 
-	return p.AccountStore.AddAccountNode(store.Account(canonicalWallet(wallet)), store.NodeID(nodeID))
+	// The node is known to the pool under its canonical ID.
+	return p.AccountStore.AddAccountNode(store.Account(canonicalWallet(wallet)), store.NodeID(pool.CanonicalNodeID(nodeID)))
 }
 
 // Withdraw schedules a balance withdraw for an account
